@@ -19,7 +19,7 @@ LEVEL = "exploration"
 RULE = ("every built-in data command x 1..5 inputs x rank 1-3 shapes x int/float dtypes x mask styles (nomask, all-false, random, "
         "single cell, all-but-one, all) x 3 payloads under the mask; CSV cases vary the number stored in missing cells; distinct by "
         "(command, n, rank, dtypes, mask classes, params)")
-REQUIRED_COUNTERS = ["mask_superset_checks", "mask_exact_checks", "payload_variation_checks", "masked_input_cells", "csv_payload_checks", "follow_up_mask_checks", "netcdf_fill_mask_checks", "large_rasters_checked", "csv_rereads_with_other_marker"]
+REQUIRED_COUNTERS = ["mask_superset_checks", "mask_exact_checks", "payload_variation_checks", "masked_input_cells", "csv_payload_checks", "follow_up_mask_checks", "netcdf_fill_mask_checks", "large_rasters_checked", "csv_rereads_with_other_marker", "large_files_read", "later_same_family_checks"]
 ASSUMPTIONS = ["what is stored under result masks and fill values are not judged", "NaN/inf and zero-length arrays are never generated",
                "cases where the reference is undefined (constant arrays, equal thresholds, zero weight sums) only get check (a) and (c)"]
 
@@ -47,12 +47,21 @@ def cases(ctx):
             if sum(1 for m in s["mask"] if not m) < 2 and n > 2:
                 s["mask"] = [False] * n
                 s["mask"][rng.randrange(n)] = True
+            # cells that were missing before hold the hidden payload: as valid data they get an ordinary value again
+            for i_ in range(n):
+                if not s["mask"][i_] and isinstance(s["data"][i_], (int, float)) and abs(s["data"][i_]) > 1e17:
+                    s["data"][i_] = 0.5 if cmd in arr.FUZZY_INPUT else (3 if s["dtype"].startswith(("int", "uint")) else 3.5)
         c["kind"] = "array"
         c["payloads"] = list(rng.choice(PAYLOAD_SETS))
         if len(c["inputs"]) >= 2 and rng.random() < 0.12:
             # the first listed input is a plain array (nothing missing): the missing cells of the others still count
             c["inputs"][0]["kind"] = "plain"
             c["inputs"][0]["mask"] = None
+        for s_ in c["inputs"]:
+            # whatever is a valid cell now holds an ordinary value (hidden payloads belong under missing cells only)
+            for i_, v_ in enumerate(s_["data"]):
+                if not (s_["mask"] and s_["mask"][i_]) and isinstance(v_, (int, float)) and abs(v_) > 1e17:
+                    s_["data"][i_] = 0.5 if cmd in arr.FUZZY_INPUT else (3 if s_["dtype"].startswith(("int", "uint")) else 3.5)
         yield c
     for _ in range(ctx.n(60, 3000)):
         n = rng.randint(2, 10)
@@ -67,6 +76,9 @@ def cases(ctx):
                "chain": rng.choice([["Copy"], ["Sum"], ["Normalize"], ["CvtToFuzzy"], ["Mean"], ["Multiply"]])}
     for _ in range(ctx.n(160, 6000)):
         yield gen_csv_case(rng)
+    # CSV tables of 70 000 - 140 000 rows with a missing marker (block-wise readers)
+    for i in range(ctx.n(1, 8)):
+        yield {"kind": "bigcsv", "nrows": rng.choice([70000, 65537, 140000, 131073]), "rseed": rng.randrange(10 ** 9), "marker": rng.choice([-9999, 0, -9999.0]), "chain": rng.choice(["Copy", "Sum", "Normalize"])}
     from mpv import big
     for i in range(ctx.n(3, 30)):
         j = i * ctx.nshards + ctx.shard
@@ -200,7 +212,41 @@ def run_big(ctx, case):
         ctx.fail("%s:payload-leaks-into-values:large-raster" % cmd, {"shape": list(shape), "which": [i for i, d in enumerate(digs) if d != digs[0]], "params": params})
 
 
+def run_bigcsv(ctx, case):
+    rs = numpy.random.RandomState(case["rseed"] % (2 ** 31))
+    n, marker = case["nrows"], case["marker"]
+    vals = numpy.round(rs.uniform(1.0, 1000.0, size=n) * 8) / 8.0
+    miss = rs.uniform(size=n) < 0.02
+    miss[[0, n - 1, 65535, 65536]] = [True, True, False, True]
+    d = ctx.scratch()
+    path = os.path.join(d, "big.csv")
+    with open(path, "w") as f:
+        f.write("X\n")
+        f.write("\n".join(repr(marker) if m else repr(float(v)) for v, m in zip(vals, miss)) + "\n")
+    prog = arr.new_program(working_dir=d)
+    out = arr.invoke(prog, "EEMSRead", "X", {"InFileName": path, "InFieldName": "X", "MissingVal": marker})
+    ctx.count("large_files_read")
+    ctx.count("masked_input_cells", int(miss.sum()))
+    ctx.feature(("bigcsv", n > 100000, repr(marker), case["chain"]))
+    if out.ok:
+        p = dict(CHAIN_PARAMS[case["chain"]])
+        p.update({"InFieldName": "X"} if arr.INPUT_STYLE[case["chain"]] == "one" else {"InFieldNames": ["X", "X"]})
+        out2 = arr.invoke(prog, case["chain"], "S", p)
+    for label, o in (("read", out), (case["chain"], out2 if out.ok else out)):
+        if not o.ok:
+            ctx.fail("csv:large-file:%s-raises-%s" % (label, o.inner() or o.err), {"rows": n, "error": str(o.exc)[:200]})
+            return
+        ctx.count("mask_exact_checks")
+        got = numpy.ma.getmaskarray(o.value)
+        if got.shape != (n,) or (got != miss).any():
+            i = int(numpy.flatnonzero(got != miss)[0]) if got.shape == (n,) else None
+            ctx.fail("csv:large-file:%s" % ("row-count" if i is None else "missing-cell-present" if miss[i] else "valid-cell-missing"), {"rows": n, "first_row": i, "rows_differing": int((got != miss).sum()) if i is not None else None, "in": label, "marker": marker})
+            return
+
+
 def run_case(ctx, case):
+    if case["kind"] == "bigcsv":
+        return run_bigcsv(ctx, case)
     if case["kind"] == "big":
         return run_big(ctx, case)
     if case["kind"] == "ncread":
@@ -253,6 +299,21 @@ def run_case(ctx, case):
                         ctx.fail("%s:valid-cell-missing" % cmd, {"cell": i, "params": params, "inputs_at_cell": [arr.cells(a)[i] for a in inputs]})
             if len(ctx.samples) < 4 and union.any():
                 ctx.sample({"cmd": cmd, "params": params, "inputs": [arr.describe(a, 8) for a in inputs], "result": arr.describe(res, 8), "payloads": case["payloads"]})
+    # another command of the same family on *other* fields of the same shape and count (everything missing there), evaluated
+    # after this one: the finished result keeps its missing cells and values
+    if out.ok and fuzzy_in and isinstance(out.value, numpy.ndarray) and len(inputs) >= 2 and arr.INPUT_STYLE.get(cmd) == "list":
+        prog1 = first[2]
+        keep = _vis_digest(out.value)
+        znames = []
+        for k, a in enumerate(inputs):
+            z = numpy.ma.array(numpy.zeros(a.shape, dtype=numpy.ma.getdata(a).dtype), mask=numpy.ones(a.shape, bool))
+            arr.standin(prog1, "Zz%d" % k, z, fuzzy=True)
+            znames.append("Zz%d" % k)
+        for later, lp in (("FuzzyXOr", {}), ("FuzzySelectedUnion", {"TruestOrFalsest": "Truest", "NumberToConsider": 1}), ("FuzzySelectedUnion", {"TruestOrFalsest": "Falsest", "NumberToConsider": len(inputs)})):
+            arr.invoke(prog1, later, "Later_%s_%d" % (later, len(lp)), dict(lp, InFieldNames=list(znames)))
+        ctx.count("later_same_family_checks")
+        if _vis_digest(out.value) != keep:
+            ctx.fail("%s:finished-result-changed-by-a-later-command-on-other-fields" % cmd, {"params": params, "n_inputs": len(inputs), "now_missing": int(numpy.ma.getmaskarray(out.value).sum())})
     # a later command on the same inputs: missing exactly where that input was missing (per the case's specification)
     if out.ok and len(inputs) >= 1:
         prog0 = first[2]
